@@ -152,10 +152,11 @@ def fsqrt(q):
     return Fraction(a, b)
 
 
-def random_world(rng, gate_finding, floats=False):
-    """`gate_finding`: leave out the calls of the (not yet listed) finding's class — a search with a target on an object
-    switched to A* with a positive weight and a consistent heuristic. `floats`: the float stream — nodes anywhere on a
-    1/16 lattice in space (squares and their sums are exact doubles, the distances are irrational), float weights."""
+def random_world(rng, floats=False):
+    """`floats`: the float stream — nodes anywhere on a 1/16 lattice in space (squares and their sums are exact doubles, the
+    distances are irrational), float weights. Searches with a target on an object switched to A* with a consistent
+    heuristic (the class of the former finding astar-label-accumulates-heuristic, repaired by c78e3ab) are generated like
+    any other call."""
     import math
     nn = rng.choice([2, 2, 2, 3])
     nets = []
@@ -230,8 +231,6 @@ def random_world(rng, gate_finding, floats=False):
             t = rng.choice(nodes)
             q = ["d", rng.choice(nodes), t, cut(), rng.choice([0, 0, 0, 1]), obj()] if rng.random() < 0.75 else \
                 ["r", rng.choice(nodes), t, cut(), rng.choice([0, 0, 1]), obj()]
-            if gate_finding and S["mode"] == 1 and Fraction(nc.num(S["wgt"])) > 0 and heuristic_consistent(net["pos"], S["edges"], S["wgt"]):
-                continue
             ops.append([k, q])
         elif r < 0.76:
             ops.append([k, ["l", rng.choice(nodes), cut(), rng.choice([0, 0, 1]), obj()]])
@@ -313,9 +312,6 @@ def table_tok(tb, unlab=lambda x: x):
     return sorted([unlab(k[0]), unlab(k[1]), nc.tok(Fraction(v))] for k, v in tb.items())
 
 
-FINDING_ASTAR = "astar-label-accumulates-heuristic"
-ASTAR_TAG = "[A* selected on this network, consistent heuristic] "
-
 
 def sqdist(pos, a, b):
     """squared straight-line distance between the nodes a and b (exact)"""
@@ -346,7 +342,9 @@ class SessOracle:
     computes the heuristic): the statement applies when the heuristic is consistent (`heuristic_consistent`, which
     includes astar_wgt = 0) — the configuration for which the docstring promises the exact solution; otherwise A* is
     documented as approximate and only what every A* guarantees is checked: sentinel iff unreachable (no cut-off), and a
-    reported value is never below the true minimum."""
+    reported value is never below the true minimum. (Since fix c78e3ab the node label is the travelled distance in A* mode
+    too: wherever the statement applies, the entries written to output_dict and the labels of the nodes a
+    run_routing_forward marked visited are judged as true distances, as in Dijkstra mode.)"""
 
     def __init__(self, n, pos=None, tol=None):
         self.n = n
@@ -375,35 +373,33 @@ class SessOracle:
         return Fraction(got) > true + (0 if self.tol is None else self.tol * max(1, abs(true)))
 
     def regime(self, t):
-        """'exact' (the statement applies), 'approx' (A*, heuristic not consistent); and whether a too-large value
-        belongs to the listed finding's class (A* by the object's own setting, positive weight, consistent heuristic)"""
+        """'exact' (the statement applies: Dijkstra; A* without a target — the heuristic is never computed; A* with a
+        consistent heuristic), 'approx' (A* with a target, heuristic not consistent: the statement does not apply)"""
         if self.mode != 1 or t is None:
-            return "exact", False
+            return "exact"
         if heuristic_consistent(self.pos, self.edges, self.wgt):
-            return "exact", Fraction(nc.num(self.wgt)) > 0
-        return "approx", False
+            return "exact"
+        return "approx"
 
-    def check_value(self, what, got, true, c, regime, known):
+    def check_value(self, what, got, true, c, regime):
         """one reported distance `got` (token, 'none' = -1) for a pair of true distance `true` (None = unreachable)"""
         if true is None:
             if got != "none":
-                return "%s = %s but no permitted walk exists (expected -1)" % (what, got), False
-            return None, False
+                return "%s = %s but no permitted walk exists (expected -1)" % (what, got)
+            return None
         if regime == "exact":
             if within(true, c) and not self.eq(got, true):
-                # the finding's two faces: an inflated value, or (inflated labels exceeding the cut-off) the sentinel
-                k = known and (self.above(got, true) if got != "none" else c is not None)
-                return "%s%s = %s, the minimum over permitted walks is %s" % (ASTAR_TAG if k else "", what, got, nc.tok(true)), k
-            return None, False
+                return "%s = %s, the minimum over permitted walks is %s" % (what, got, nc.tok(true))
+            return None
         # approximate A*: never below the minimum; the sentinel only when a cut-off stopped the search
         if got == "none":
             if c is None:
-                return "%s = -1 but a permitted walk of weight %s exists (A*, no cut-off)" % (what, nc.tok(true)), False
+                return "%s = -1 but a permitted walk of weight %s exists (A*, no cut-off)" % (what, nc.tok(true))
         elif not self.eq(got, true) and not self.above(got, true):
-            return "%s = %s is below the minimum over permitted walks %s (A*)" % (what, got, nc.tok(true)), False
-        return None, False
+            return "%s = %s is below the minimum over permitted walks %s (A*)" % (what, got, nc.tok(true))
+        return None
 
-    def check_dict(self, what, got, s_written, complete, c, regime="exact", known=False):
+    def check_dict(self, what, got, s_written, complete, c, regime="exact"):
         """`got`: dump of the dictionary; entries of source s_written were (re)written by this call"""
         exp, nodes = self.E, self.nodes
         d = self.dist()
@@ -417,112 +413,110 @@ class SessOracle:
                     if g is not None:
                         exp[(s, v)] = (g, self.ver)
                     continue
-                tag = lambda: ASTAR_TAG if known and d[s][v] is not None and self.above(g, d[s][v]) else ""
                 if w and complete:
                     if not self.eq(g, d[s][v]):
-                        return "%s: dictionary[(%d,%d)] = %s, the true distance %s is within the cut-off" % (what, s, v, g, nc.tok(d[s][v])), False
+                        return "%s: dictionary[(%d,%d)] = %s, the true distance %s is within the cut-off" % (what, s, v, g, nc.tok(d[s][v]))
                     exp[(s, v)] = (g, self.ver)
                 elif g is not None and (s, v) not in exp:
                     # written by this call (it was not there before): must be a true distance within the cut-off
                     if not w or not self.eq(g, d[s][v]):
-                        return "%s%s: wrote dictionary[(%d,%d)] = %s; true distance %s, cut-off %s" % (
-                            tag(), what, s, v, g, "none" if d[s][v] is None else nc.tok(d[s][v]), c), bool(tag())
+                        return "%s: wrote dictionary[(%d,%d)] = %s; true distance %s, cut-off %s" % (
+                            what, s, v, g, "none" if d[s][v] is None else nc.tok(d[s][v]), c)
                     exp[(s, v)] = (g, self.ver)
                 elif g is not None and exp[(s, v)][0] != g:
                     # overwritten by this call
                     if not w or not self.eq(g, d[s][v]):
-                        return "%s%s: overwrote dictionary[(%d,%d)] with %s; true distance %s, cut-off %s" % (
-                            tag(), what, s, v, g, "none" if d[s][v] is None else nc.tok(d[s][v]), c), bool(tag())
+                        return "%s: overwrote dictionary[(%d,%d)] with %s; true distance %s, cut-off %s" % (
+                            what, s, v, g, "none" if d[s][v] is None else nc.tok(d[s][v]), c)
                     exp[(s, v)] = (g, self.ver)
         for key in gotd:
             if key not in exp:
-                return "%s: dictionary has the key %s, which no call should have written" % (what, list(key)), False
+                return "%s: dictionary has the key %s, which no call should have written" % (what, list(key))
         for key in exp:
             if key not in gotd:
-                return "%s: the key %s disappeared from the dictionary" % (what, list(key)), False
-        return None, False
+                return "%s: the key %s disappeared from the dictionary" % (what, list(key))
+        return None
 
     def feed(self, what, op, res, pos):
-        """judge one call; `res[pos:]` = its result record(s). Returns (message or None, message belongs to the listed
-        finding's class, position after the records of this call)."""
+        """judge one call; `res[pos:]` = its result record(s). Returns (message or None, position after the records of this call)."""
         nodes, edges = self.nodes, self.edges
         if pos >= len(res):
-            return "%s: no result" % what, False, pos
+            return "%s: no result" % what, pos
         r = res[pos]; pos += 1
         k = op[0]
         has_dump = (k in "rd" and op[4]) or (k == "l" and op[3]) or (k == "a" and op[2])
         end = pos + (1 if has_dump else 0)
         if r == "err" and k in "rdlsx" and any(v is not None and v not in nodes for v in ([op[1], op[2]] if k in "rd" else [op[1]])):
-            return None, False, end     # a node this network does not hold (see SessRunner.call): the call was not made
+            return None, end     # a node this network does not hold (see SessRunner.call): the call was not made
         if isinstance(r, str) and r not in ("ok",):
-            return "%s: %s" % (what, r), False, end
+            return "%s: %s" % (what, r), end
         if k == "n":
             if op[1] not in nodes:
                 nodes.append(op[1])
-            return None, False, end
+            return None, end
         if k == "e":
             edges.append([op[1], op[2], op[3], op[4], op[5]])
             for v in (op[2], op[3]):
                 if v not in nodes:
                     nodes.append(v)
             self.ver += 1; self.fw = None
-            return None, False, end
+            return None, end
         if k == "m":
             self.mode = op[1]
-            return None, False, end
+            return None, end
         if k == "w":
             self.wgt = op[1]
-            return None, False, end
+            return None, end
         d = self.dist()
         ver = self.ver
         cv = lambda c: cutval(c if c == "none" else nc.tok(nc.num(c)))
-        def dict_fail(m, known):
+        def dict_fail(m):
             self.E = None      # after a failure the dictionary's content is no longer predictable
-            return m, known, end
+            return m, end
         if k == "d":
             s, t, c = op[1], op[2], cv(op[3])
-            regime, known = self.regime(t)
-            m, kn = self.check_value(what, r[1], d[s][t], c, regime, known)
+            regime = self.regime(t)
+            m = self.check_value(what, r[1], d[s][t], c, regime)
             if m:
                 if op[4]:
                     self.E = None
-                return m, kn, end
+                return m, end
             if op[4] and self.E is not None:
-                m, kn = self.check_dict(what, res[pos][1], s, False, c, regime, known)
+                m = self.check_dict(what, res[pos][1], s, False, c, regime)
                 if m:
-                    return dict_fail(m, kn)
+                    return dict_fail(m)
         elif k in ("l", "r"):
             s = op[1]
             c = cv(op[-3])
             t = op[2] if k == "r" else None
-            regime, known = self.regime(t)
+            regime = self.regime(t)
             labels = r[1]
             if len(labels) != len(nodes):
-                return "%s: %d values for %d nodes" % (what, len(labels), len(nodes)), False, end
+                return "%s: %d values for %d nodes" % (what, len(labels), len(nodes)), end
             for j, v in enumerate(nodes):
                 if d[s][v] is None:
                     if labels[j] != "none":
-                        return "%s: node %d has the label %s but is unreachable" % (what, v, labels[j]), False, end
+                        return "%s: node %d has the label %s but is unreachable" % (what, v, labels[j]), end
                 elif t is None or v == t:
-                    m, kn = self.check_value("%s: label of node %d" % (what, v), labels[j], d[s][v], c, regime, known)
+                    m = self.check_value("%s: label of node %d" % (what, v), labels[j], d[s][v], c, regime)
                     if m:
                         if op[-2]:
                             self.E = None
-                        return m, kn, end
-                if k == "r" and r[2][j] and not (self.mode == 1 and t is not None) and \
+                        return m, end
+                if k == "r" and r[2][j] and regime == "exact" and \
                         (d[s][v] is None or not self.eq(labels[j], d[s][v])):
-                    return "%s: node %d is marked visited with the label %s, true distance %s" % (what, v, labels[j], d[s][v]), False, end
+                    return "%s: node %d is marked visited with the label %s, true distance %s" % (what, v, labels[j], d[s][v]), end
             if op[-2] and self.E is not None:
-                m, kn = self.check_dict(what, res[pos][1], s, t is None, c, regime, known)
+                m = self.check_dict(what, res[pos][1], s, t is None, c, regime)
                 if m:
-                    return dict_fail(m, kn)
+                    return dict_fail(m)
         elif k == "a":
             c = cv(op[1])
             if op[2]:
                 if self.E is not None:
-                    m, kn = self.check_dict(what, r[1], None, True, c)
+                    m = self.check_dict(what, r[1], None, True, c)
                     if m:
-                        return dict_fail(m, kn)
+                        return dict_fail(m)
                 if res[pos][1] != r[1]:
                     self.E = None       # the dictionary was not filled in place (the property does not require it): its content is no longer predictable
             else:
@@ -532,7 +526,7 @@ class SessOracle:
                 if not same:
                     extra = [x for x in r[1] if x not in want][:3]
                     missing = [x for x in want if x not in r[1]][:3]
-                    return "%s: entries not among the pairs with distance <= cut: %s; missing or wrong: %s" % (what, extra, missing), False, end
+                    return "%s: entries not among the pairs with distance <= cut: %s; missing or wrong: %s" % (what, extra, missing), end
         elif k == "p":
             c = cv(op[1])
             if self.D is None:
@@ -545,13 +539,13 @@ class SessOracle:
             key = (op[1], op[2])
             D = self.D
             if D is None:
-                return None, False, end
+                return None, end
             if key not in D:
                 if r[1] not in ("none", 0):
-                    return "%s = %s but no prepare so far had this pair within its cut-off" % (what, r[1]), False, end
+                    return "%s = %s but no prepare so far had this pair within its cut-off" % (what, r[1]), end
             elif D[key][1] == ver:
                 if (k == "q" and not self.eq(r[1], D[key][0])) or (k == "h" and r[1] != 1):
-                    return "%s = %s, expected the prepared distance %s" % (what, r[1], nc.tok(D[key][0])), False, end
+                    return "%s = %s, expected the prepared distance %s" % (what, r[1], nc.tok(D[key][0])), end
         elif k == "x":
             pass        # the returned network becomes a member of the family, judged on its own edge list (`extracted`)
         elif k == "s":
@@ -563,8 +557,8 @@ class SessOracle:
                 for b, got in zip(ids, row):
                     want = "none" if ds[a][b] is None else nc.tok(ds[a][b])
                     if not self.eq(got, ds[a][b]):
-                        return "%s: on the returned sub-network shortest_distance(%d,%d) = %s, expected %s" % (what, a, b, got, want), False, end
-        return None, False, end
+                        return "%s: on the returned sub-network shortest_distance(%d,%d) = %s, expected %s" % (what, a, b, got, want), end
+        return None, end
 
 
 def has_dump(op):
@@ -880,10 +874,17 @@ class P(Prop):
         (M, "TV.C06.own_setting_dijkstra_is_session", "an object whose own routing_mode is not 1 (the default) answers every call as the session model, whatever its astar_wgt; the setters change their own object's two attributes only"),
         (M, "TV.C06.no_target_no_heuristic", "in A* mode every call other than a search with a target (list form, all_shortest_distances, prepare, sub_network) is the Dijkstra call: the heuristic is never computed"),
         (M, "TV.C06.astar_zero_heuristic_is_dijkstra", "A* with a heuristic that is 0 everywhere (astar_wgt = 0, or all nodes at the target's place) runs as Dijkstra: shortest_distance(s,t) = the true minimum, sentinel iff unreachable"),
-        (M, "TV.C06.astar_as_coded_bounds", "the A* branch as coded (poids = g + accumulated heuristic), any heuristic >= 0: a reported value is never below the weight of a permitted walk; without a cut-off the sentinel iff no walk exists"),
-        (M, "TV.C06.astar_as_coded_inflates", "the A* branch as coded is NOT exact even for a consistent heuristic: on the road 0-10-1-10-2 it reports 30, the distance (and the repaired variant's answer) is 20 (finding astar-label-accumulates-heuristic)"),
-        (M, "TV.C06.astar_fixed_exact", "the repaired A* (label g, queue priority g + h) is exact for every consistent heuristic: the minimum over permitted walks, sentinel iff none"),
+        (M, "TV.C06.astar_any_heuristic_bounds", "A* (label g, queue priority g + h) with ANY heuristic, any cut-off: a reported value is the weight of a permitted walk (never below the minimum); without a cut-off the sentinel iff no walk exists — what the oracle asks when the heuristic is not consistent"),
+        (M, "TV.C06.astar_exact", "A* with a consistent heuristic: shortest_distance(s,t) = the minimum over permitted walks, sentinel iff none"),
+        (M, "TV.C06.astar_cut", "A* with a consistent heuristic (smallest at the target), with a cut-off: shortest_distance(s,t,cut) = the true distance whenever it is <= cut; sentinel whenever t is unreachable"),
+        (M, "TV.C06.astar_cut_sound", "A* with a consistent heuristic, with a cut-off: whatever is returned is the weight of a permitted walk; the sentinel only when no walk within the cut-off exists"),
+        (M, "TV.C06.astar_output_dict_entries_sound", "A* with a consistent heuristic, any target, any cut-off: every output_dict entry is the true distance of its key within the cut-off; entries = visited nodes; every visited node's label is its true distance"),
         (M, "TV.C06.consistent_of_scaled_metric", "edges weighing at least astar_wgt x the distance between their ends + the triangle inequality make the heuristic consistent (the configuration the oracle holds A* to the statement for)"),
+        (M, "TV.C06.world_astar_distance_correct", "any program over several Network objects: on an object whose own method is A* at that moment and whose heuristic towards t is consistent on its current graph, shortest_distance(s,t[,cut]) = the minimum over permitted walks, sentinel iff none; with a cut-off the true distance whenever within it"),
+        (M, "TV.C06.astar_heuristic_consistent", "Node.distanceTo is the Euclidean distance (triangle inequality proved, any sqrt that is a square root on an ordered field): with 0 <= astar_wgt and every permitted arc weighing at least astar_wgt x the straight-line distance of its ends (the oracle's predicate) the heuristic towards any target is consistent and smallest at the target"),
+        (M, "TV.C06.world_astar_metric_distance_correct", "the property for A* at full strength, hypotheses on the configuration only: in any program, on an A* object with 0 <= astar_wgt and arcs >= astar_wgt x straight-line length, shortest_distance(s,t[,cut]) = the minimum over permitted walks, sentinel iff none, true distance whenever within the cut-off"),
+        (M, "TV.C06.world_astar_call_is_pure", "in any state of such a program a search with a target on an A* object answers, and fills output_dict, as the pure A* search on its current graph (flags of earlier searches are reset)"),
+        (M, "TV.C06.astar_old_inflates", "what fix c78e3ab repaired: on the road 0-10-1-10-2 (consistent heuristic) the PRE-FIX loop (HOld: poids = g + h) reported 30; the model of the present code, Dijkstra and the true distance are 20, also under the cut-off 20"),
     ]
     partial = []
     open_statements = ["float weights: the theorems need only a linear order, a + 0 = a, 0 <= w -> a <= a + w and a <= b -> a + w <= b + w (no associativity: code and Walk both add from the source outwards), "
@@ -892,12 +893,13 @@ class P(Prop):
                        "save_prep / load_prep are modelled as 'the dictionary read back is the dictionary written' (numpy's pickle is exercised by the sessions, not modelled); "
                        "sub_network in GEOMETRIC mode is outside the model; in the family model (shared Node objects) every member routes with Dijkstra "
                        "(setRoutingMethod on a member of a family is not modelled: the world model has the settings, with private Node objects)",
-                       "A* as coded (routing_mode = 1, a target, heuristic not 0) does not satisfy the statement (theorem astar_as_coded_inflates; finding astar-label-accumulates-heuristic, "
-                       "findings/C06.json): only astar_as_coded_bounds is proved for it; exactness is proved for the repaired variant (astar_fixed_exact, exact arithmetic, no cut-off). "
-                       "The Euclidean triangle inequality behind `consistent_of_scaled_metric` is a hypothesis (sqrt is a parameter of the model)"]
-    modelled = ("Network.__init__ (routing_mode, astar_wgt as instance attributes), setRoutingMethod, setAStarWeight, the A* branch of run_routing_forward as coded "
-                "(heuristic = astar_wgt * fils.distanceTo(NODES[target]) when routing_mode == 1 and a target is given, added into fils.poids; relaxation test without it), "
-                "Node.distanceTo / ENUCoords.distanceTo / norm, several Network objects alive at once (Model/GraphAStar.lean, which also holds the repaired A* `forwardFix`); "
+                       "A*: exactness is proved in exact arithmetic (ordered cancellative monoid); with float weights the g + h comparisons are subject to rounding (float world stream: 1e-9 relative). "
+                       "sqrt is a parameter of the model, assumed to be a square root on the non-negative elements of an ordered field (IsSqrt; the Euclidean triangle inequality is proved from that); A* with a heuristic that is NOT consistent is outside the statement "
+                       "(documented as approximate): only astar_any_heuristic_bounds is proved and judged for it"]
+    modelled = ("Network.__init__ (routing_mode, astar_wgt as instance attributes), setRoutingMethod, setAStarWeight, the A* branch of run_routing_forward as it is after fix c78e3ab "
+                "(heuristic = astar_wgt * fils.distanceTo(NODES[target]) when routing_mode == 1 and a target is given, else its initial 0; fils.poids = pere.poids + e.weight — the label is g, so the stop test "
+                "`pere.poids > cut` and output_dict see g —; fil[fils] = fils.poids + heuristic — the queue pops by (g + h, node id)), "
+                "Node.distanceTo / ENUCoords.distanceTo / norm, several Network objects alive at once (Model/GraphAStar.lean, which also keeps the pre-fix loop `forwardHOld` as the documented defective variant); "
                 "Network.addNode / addEdge (NEXT_EDGES by orientation), __resetFlags, run_routing_forward in Dijkstra mode (pop by (poids, node id), stop tests "
                 "before recording, 'other end' rule, visite guard, strict < relaxation, output_dict), shortest_distance (pair and list form, ids or Node objects, with output_dict), "
                 "all_shortest_distances (fresh or caller's dictionary), prepare, prepared_shortest_distance, has_prepared_shortest_distance, sub_network (TOPOLOGIC) — "
@@ -933,7 +935,8 @@ class P(Prop):
             "random moments, 8-34 calls interleaved: the session calls above plus setRoutingMethod(0/1) and setAStarWeight(0, 1/2, 1, 3/2, 2) on individual objects; edge weights "
             "either metric (straight-line distance x 1, 3/2, 2, 3) or arbitrary. Each object's answers are judged with ITS OWN settings: Dijkstra -> the statement; A* without a target -> the "
             "statement; A* with a target and a consistent heuristic (0 <= astar_wgt, every weight >= astar_wgt x straight-line length; includes astar_wgt = 0) -> the statement "
-            "(failures there with a too-large value are the finding astar-label-accumulates-heuristic; such calls are generated only once that finding is listed in known_findings.json); "
+            "for the value, for every dictionary entry written and for the label of every node run_routing_forward marked visited (the class of the former finding astar-label-accumulates-heuristic, "
+            "repaired by c78e3ab: always generated, judged like any other input; its witnesses are corpus cases); "
             "A* with a target otherwise (documented as approximate) -> sentinel iff unreachable when there is no cut-off, and never below the minimum. "
             "Float worlds: the same with nodes anywhere on a 1/16 lattice in the plane or in space (irrational distances, sqrt = IEEE sqrt), float weights (metric x 1..3 or arbitrary, zeros), "
             "float astar_wgt and cut-offs; model instantiated at Float and compared bit for bit, oracle in exact rationals at 1e-9 relative. "
@@ -943,40 +946,9 @@ class P(Prop):
 
     def setup(self):
         self.mods = nc.import_mods()
-        self._listed = None
-
-    def listed(self, cls):
-        """is `cls` a listed finding of known_findings.json (read, never written)? Inputs of a finding's class are generated
-        only then: the engine excuses a failing case only when its class is listed (proposal: findings/C06.json)"""
-        if getattr(self, "_listed", None) is None:
-            import json, os
-            try:
-                with open(os.path.join(os.path.dirname(os.path.dirname(os.path.dirname(os.path.abspath(__file__)))), "known_findings.json")) as fh:
-                    ents = json.load(fh).get("entries", [])
-                self._listed = {e.get("class") for e in ents if e.get("property") == "C06" and e.get("status") == "finding"}
-            except Exception:
-                self._listed = set()
-        return cls in self._listed
-
-    def corpus(self):
-        """corpus cases marked `needs_listed` are witnesses of a finding: run only once the finding is listed"""
-        import json, os
-        d = os.path.join(os.path.dirname(os.path.dirname(os.path.dirname(os.path.abspath(__file__)))), "corpus", self.id)
-        out = []
-        if os.path.isdir(d):
-            for f in sorted(os.listdir(d)):
-                if f.endswith(".json"):
-                    with open(os.path.join(d, f)) as fh:
-                        c = json.load(fh)
-                    if c.get("needs_listed") and not self.listed(c["needs_listed"]):
-                        continue
-                    out.append(c.get("case", c))
-        return out
 
     def classify(self, case, impl_out, msg):
-        if isinstance(msg, str) and msg.startswith(ASTAR_TAG):
-            return FINDING_ASTAR
-        return None
+        return None     # no listed finding: the class astar-label-accumulates-heuristic was repaired by c78e3ab (corpus/C06/world-astar-consistent-inflated.json is its witness)
 
     def fresh(self):
         """Hermetic evaluation: every case runs on freshly executed definitions of the two anchored modules
@@ -1083,12 +1055,11 @@ class P(Prop):
         for _ in range(1500 if tier == "quick" else 25000):
             out.append(random_family(rng))
         # several Network objects with their own routing settings (setRoutingMethod / setAStarWeight), calls interleaved
-        gate = not self.listed(FINDING_ASTAR)
         for _ in range(1500 if tier == "quick" else 25000):
-            out.append(random_world(rng, gate))
+            out.append(random_world(rng))
         # the same with float coordinates / weights / cut-offs (model instantiated at Float, sqrt = IEEE sqrt)
         for _ in range(500 if tier == "quick" else 8000):
-            out.append(random_world(rng, gate, floats=True))
+            out.append(random_world(rng, floats=True))
         return out
 
     def describe(self, case):
@@ -1658,19 +1629,17 @@ class P(Prop):
         res = list(out["res"])
         pos = 0
         for i, op in enumerate(case["ops"]):
-            m, _, pos = orc.feed("call %d %s" % (i, json_op(op)), op, res, pos)
+            m, pos = orc.feed("call %d %s" % (i, json_op(op)), op, res, pos)
             if m:
                 return m
         return None
 
     def spec_world(self, case, out):
         """several Network objects: each object's answers are judged by its own oracle, with its OWN settings (what the
-        other objects were told never matters). A failure of the listed finding's class (an object switched to A* by its
-        own setter, consistent heuristic) is reported only when nothing else fails in the case."""
+        other objects were told never matters)."""
         orcs = {}
         res = list(out["res"])
         pos = 0
-        first_known = None
         for i, (k, op) in enumerate(case["ops"]):
             what = "call %d on network %d: %s" % (i, k, json_op(op))
             if op[0] == "c":
@@ -1679,12 +1648,10 @@ class P(Prop):
                 orcs[k] = SessOracle(case["nets"][k]["n"], pos=case["nets"][k]["pos"], tol=1e-9 if case["kind"] == "fworld" else None)
                 pos += 1
                 continue
-            m, known, pos = orcs[k].feed(what, op, res, pos)
-            if m and not known:
+            m, pos = orcs[k].feed(what, op, res, pos)
+            if m:
                 return m
-            if m and first_known is None:
-                first_known = m
-        return first_known
+        return None
 
     def spec_fam(self, case, out):
         """several networks holding the same Node objects: every network's answers are judged, call by call, against
@@ -1724,7 +1691,7 @@ class P(Prop):
                 pos += 2 if has_dump(op) else 1
                 continue
             rec = res[pos] if pos < len(res) else None
-            m, _, pos = orcs[k].feed(what, op, res, pos)
+            m, pos = orcs[k].feed(what, op, res, pos)
             if m:
                 return m
             if op[0] == "x" and rec != "err":
@@ -1788,10 +1755,8 @@ class P(Prop):
                     yield dict(case, subs=subs[:k] + [c] + subs[k + 1:])
             return
         if case["kind"] in ("world", "fworld"):
-            # while the A* finding is not listed its class is not generated — and not drifted into by shrinking either
-            gate = not self.listed(FINDING_ASTAR) and world_regimes(case)["astar_consistent"] == 0
             for c in self.shrink_world(case):
-                if world_valid(c) and not (gate and world_regimes(c)["astar_consistent"]):
+                if world_valid(c):
                     yield c
             return
         if case["kind"] == "fam":
